@@ -98,7 +98,7 @@ SHAPES = {
 SHAPE_NAMES = list(SHAPES)
 
 AIR_SIG = "fluid/air-temperature-change-raises"
-EXCLUDE_KNOWN = {AIR_SIG: True}
+EXCLUDE_KNOWN = {AIR_SIG: False}  # repaired in /repo (fix: commit 9e42795); the shape is searched again
 
 
 # ------------------------------------------------------------------------------------------------
@@ -966,7 +966,7 @@ PARTS = [
               "model) and compared with the table pinned in the check; every cross-section length of the 12 shapes must be "
               "in THERMAL_EXPANSION_DIMS",
          bound=lambda t: "all classes in armi.materials, 12 two-dimensional shapes"),
-    Part("grid", single_execute, enumerate=grid_enum, exhaustive=False, procs={"quick": 8, "thorough": 16},
+    Part("grid", single_execute, enumerate=grid_enum, exhaustive=False, procs={"quick": 6, "thorough": 16},
          rule="every (2-D shape, library material) cell is visited: N draws per expanding-solid cell, fewer per fluid/Custom "
               "cell, one per no-expansion-model cell; a draw = cold dimensions (positive area, inner < outer), Tinput, Thot and "
               "1..6 further temperatures inside the material's stated window (first draw of a cell: window bottom -> middle -> "
@@ -980,13 +980,13 @@ PARTS = [
          procs={"quick": 6, "thorough": 16},
          rule="Hypothesis draws (shape, material, dimension fractions, Tinput, Thot, path of 1..6 setTemperature / hot-write "
               "operations, modifications, parent) with window boundaries over-weighted; same oracle as the grid; shrinkable"),
-    Part("linked_grid", linked_execute, enumerate=linked_enum, exhaustive=False, procs={"quick": 4, "thorough": 16},
+    Part("linked_grid", linked_execute, enumerate=linked_enum, exhaustive=False, procs={"quick": 1, "thorough": 8},
          rule="every link template (fuel/bond, fuel/gap/clad, fuel/gap/liner/clad with a solid-solid link, annular fuel, "
               "duct/intercoolant, duct/gap/duct, plate/channel, liner chain) x every link fluid, fixed history heating and "
               "cooling every component",
          bound=lambda t: "8 templates x 9 fluids x %d material draws" % {"quick": 1, "thorough": 12}[t]),
     Part("linked", linked_execute, strategy=linked_strategy, budget={"quick": 1500, "thorough": 60000},
-         procs={"quick": 6, "thorough": 16},
+         procs={"quick": 3, "thorough": 16},
          rule="Hypothesis: 2-4 components built like BlockBlueprint.construct (link strings, resolveLinkedDims, HexBlock), each "
               "with its own material, Tinput and Thot; history of up to 8 setTemperature / setDimension operations on any "
               "component; after every step every linked dimension equals the target's current (and cold) dimension and the "
